@@ -94,6 +94,16 @@ CHECKS = {
             'rationals; sub-interval and mapped tables are additionally sampled at generated arguments',
             'trusts gcc, ctypes, Fraction arithmetic and vlib/ref/bardell.py; floating-point evaluation of the '
             'high-index closed forms is judged against eps*sum|terms| (conditioning), their coefficients exactly', '3 C10'),
+    'C14': ('Hypothesis-generated panels; purely metamorphic oracles between equivalent descriptions produced by the package itself',
+            'generated-input search over six relations: cone(0)==cylinder, cylinder(r->inf)->plate (1/r, 1/r^2 law), w-only == w-block, '
+            'numeric(c=0) == analytic, x<->y exchange (matrices up to the dof permutation, eigenvalues through lb/freq), similarity '
+            'scaling (s, e, q)',
+            'no reference model: a defect shared by both descriptions is invisible here (covered by C02-C04)', '3 C14'),
+    'C19': ('Hypothesis-generated aerodynamic cases; differential oracle: bilinear forms of the piston-theory pressure law from w '
+            'operators; metamorphic: flow-y == flow-x on the exchanged panel; dense non-Hermitian reference for Panel.freq',
+            'generated-input search over flat / w-only / cylindrical panels, both flow directions, coefficients given directly or '
+            'through Mach number, restrained and unrestrained flow edges, placement, and stiffened bays',
+            'gamma applies to curved panels only (statement); the damping coefficient derived inside calc_kA is not observable', '3 C19'),
 }
 
 ALL = ['C%02d' % i for i in range(1, 21)]
